@@ -15,8 +15,9 @@ import json, os, subprocess, sys, shutil
 
 ENV = dict(os.environ, GOFLAGS="-mod=mod", GOPROXY="off", GOSUMDB="off", GOTOOLCHAIN="local")
 VERIF = os.path.dirname(os.path.dirname(os.path.abspath(__file__)))
-WT = "/tmp/confirm-wt"
-MREPO = "/var/tmp/mrepo"
+TAG = os.environ.get("BM_TAG", "")
+WT = "/tmp/confirm-wt" + TAG
+MREPO = "/var/tmp/mrepo" + TAG
 
 
 def sh(cmd, cwd, timeout=900):
@@ -68,7 +69,7 @@ def main():
         rc, out = sh("git apply '%s'" % patch, MREPO)
         res["checks"] = {}
         for p in props:
-            rc, out = sh("VERIF_EVIDENCE_DIR=/var/tmp/mutant-evidence VERIF_REPO=%s ./check %s --seed 1 2>&1 | grep -v '^KNOWN-FINDING' | tail -2" % (MREPO, p), VERIF, 3000)
+            rc, out = sh("VERIF_EVIDENCE_DIR=/var/tmp/mutant-evidence%s VERIF_REPO=%s ./check %s --seed 1 2>&1 | grep -v '^KNOWN-FINDING' | tail -2" % (TAG, MREPO, p), VERIF, 3000)
             viol = [l for l in out.splitlines() if l.startswith("VIOLATION")]
             res["checks"][p] = (viol[0].split("replay=")[-1].replace(VERIF + "/replays/", "") if viol else "missed")
         sh("git checkout -q -- . && git clean -fdq", MREPO)
